@@ -611,6 +611,17 @@ class ParsersWorld:
                 if len(runs) == 1:
                     runs.append(dict(runs[0]))
             tasks.append(task)
+        if rs.random() < 0.08:
+            # every object dumps, half of the time under one and the same base name: the dump stages of different objects
+            # meet in one folder (only the returned values are compared; the I/O calls are scheduling points)
+            shared = rs.random() < 0.5
+            for t in tasks:
+                for kw in t["runs"]:
+                    kw["dump"] = True
+                    if shared:
+                        kw["file_path"] = "in/t.sql"
+                t["dumps"] = True
+            swarm["all_dump"] = True
         for t in tasks:
             if t.get("via_file"):
                 # parse_from_file supplies file_path itself; the file entry point is compared without dumping here
@@ -651,8 +662,8 @@ class ParsersWorld:
 
     # ------------------------------------------------------------------ execution: C15
     LABELS = {"O": ("between",),
-              "S": ("between", "after_lex", "after_yacc", "run_entry", "before_stmt", "run_exit"),
-              "L": ("between", "after_lex", "after_yacc", "run_entry", "before_stmt", "run_exit")}
+              "S": ("between", "after_lex", "after_yacc", "run_entry", "before_stmt", "run_exit", "io_open", "io_rename"),
+              "L": ("between", "after_lex", "after_yacc", "run_entry", "before_stmt", "run_exit", "io_open", "io_rename")}
 
     def exec_c15(self, trace, keep_events=True):
         swarm = trace["swarm"]
